@@ -5,16 +5,17 @@ From FV Require Import Core.Syntax Core.Sem.
 Import ListNotations.
 
 Section R.
+Variable structs : structs_t.
 Variable callf : nat -> list value -> list line -> res value.
 
 (* wrapping statements in `if true { }` is the same as wrapping them in a block *)
 Lemma if_true_is_block k s en out :
-  exec callf k (SIf (EBool true) s SSkip) en out = exec callf k (SBlock s) en out.
+  exec structs callf k (SIf (EBool true) s SSkip) en out = exec structs callf k (SBlock s) en out.
 Proof. reflexivity. Qed.
 
 (* ... also when the `if true` has an arbitrary else branch *)
 Lemma if_true_else_irrelevant k s s' en out :
-  exec callf k (SIf (EBool true) s s') en out = exec callf k (SBlock s) en out.
+  exec structs callf k (SIf (EBool true) s s') en out = exec structs callf k (SBlock s) en out.
 Proof. reflexivity. Qed.
 
 (* call-free expressions *)
@@ -25,49 +26,56 @@ Fixpoint callfree (e : expr) : bool :=
   | EUn _ a => callfree a
   | ECast a _ => callfree a
   | ECall _ _ => false
+  | EStructLit _ _ => false
+  | EField a _ => callfree a
   end.
 
 (* a call-free expression prints nothing: binding it to a local earlier or later cannot reorder output *)
 Lemma callfree_no_output : forall e en out v out',
-  callfree e = true -> eval callf e en out = Ok v out' -> out' = out.
+  callfree e = true -> eval structs callf e en out = Ok v out' -> out' = out.
 Proof.
-  induction e as [t z|b|x|o a IHa b IHb|o a IHa|a IHa t|f es]; intros en out v out' Hc H; cbn in *.
+  induction e as [t z|b|x|o a IHa b IHb|o a IHa|a IHa t|f es|sid es|a IHa k]; intros en out v out' Hc H; cbn in *.
   - inversion H; reflexivity.
   - inversion H; reflexivity.
   - destruct (lookup x en); inversion H; reflexivity.
   - apply andb_prop in Hc as [Ha Hb].
     destruct o;
-    (destruct (eval callf a en out) as [va o1| | |] eqn:Ea; cbn in H; try discriminate;
+    (destruct (eval structs callf a en out) as [va o1| | |] eqn:Ea; cbn in H; try discriminate;
      pose proof (IHa _ _ _ _ Ha Ea) as ->);
-    try (destruct (eval callf b en out) as [vb o2| | |] eqn:Eb; cbn in H; try discriminate;
+    try (destruct (eval structs callf b en out) as [vb o2| | |] eqn:Eb; cbn in H; try discriminate;
          pose proof (IHb _ _ _ _ Hb Eb) as ->;
          destruct va, vb; try discriminate;
          repeat match type of H with
                 | context [if ?c then _ else _] => destruct c
                 | context [match ?c with _ => _ end] => destruct c
                 end; try discriminate; inversion H; reflexivity).
-    + destruct va as [| [|] |]; try discriminate; [|inversion H; reflexivity].
-      destruct (eval callf b en out) as [vb o2| | |] eqn:Eb; cbn in H; try discriminate.
+    + destruct va as [| [|] | |]; try discriminate; [|inversion H; reflexivity].
+      destruct (eval structs callf b en out) as [vb o2| | |] eqn:Eb; cbn in H; try discriminate.
       pose proof (IHb _ _ _ _ Hb Eb) as ->. destruct vb; try discriminate; inversion H; reflexivity.
-    + destruct va as [| [|] |]; try discriminate; [inversion H; reflexivity|].
-      destruct (eval callf b en out) as [vb o2| | |] eqn:Eb; cbn in H; try discriminate.
+    + destruct va as [| [|] | |]; try discriminate; [inversion H; reflexivity|].
+      destruct (eval structs callf b en out) as [vb o2| | |] eqn:Eb; cbn in H; try discriminate.
       pose proof (IHb _ _ _ _ Hb Eb) as ->. destruct vb; try discriminate; inversion H; reflexivity.
-  - destruct o; destruct (eval callf a en out) as [va o1| | |] eqn:Ea; cbn in H; try discriminate;
+  - destruct o; destruct (eval structs callf a en out) as [va o1| | |] eqn:Ea; cbn in H; try discriminate;
       pose proof (IHa _ _ _ _ Hc Ea) as ->; destruct va; try discriminate; inversion H; reflexivity.
-  - destruct (eval callf a en out) as [va o1| | |] eqn:Ea; cbn in H; try discriminate.
+  - destruct (eval structs callf a en out) as [va o1| | |] eqn:Ea; cbn in H; try discriminate.
     pose proof (IHa _ _ _ _ Hc Ea) as ->. destruct va; try discriminate; inversion H; reflexivity.
   - discriminate.
+  - discriminate.
+  - destruct (eval structs callf a en out) as [va o1| | |] eqn:Ea; cbn in H; try discriminate.
+    pose proof (IHa _ _ _ _ Hc Ea) as ->. destruct va; try discriminate.
+    destruct (nth_error structs sid); try discriminate.
+    destruct (nth_error l k), (nth_error fs k); try discriminate. inversion H; reflexivity.
 Qed.
 
 (* replacing a literal by a call to a function that returns this literal *)
 Lemma lit_call_local g t z en out :
   callf g [] out = Ok (VInt t z) out ->
-  eval callf (ECall g []) en out = eval callf (ELit t z) en out.
+  eval structs callf (ECall g []) en out = eval structs callf (ELit t z) en out.
 Proof. intros H. cbn. exact H. Qed.
 End R.
 
 (* the function `fn g() -> t { return z; }` does return z, for every positive fuel and every output prefix *)
-Lemma const_fn_returns p g t z fuel out :
+Lemma const_fn_returns structs p g t z fuel out :
   nth_error p g = Some {| fparams := []; fret := TInt t; fbody := SReturn (Some (ELit t z)) |} ->
-  call p (S fuel) g [] out = Ok (VInt t z) out.
+  call structs p (S fuel) g [] out = Ok (VInt t z) out.
 Proof. intros H. cbn. rewrite H. cbn. reflexivity. Qed.
